@@ -6,6 +6,7 @@ import (
 	"errors"
 	"fmt"
 	"os"
+	"regexp"
 	"runtime"
 	"sort"
 	"strconv"
@@ -14,6 +15,7 @@ import (
 	"sync/atomic"
 	"time"
 
+	"github.com/lindb/roaring"
 	"google.golang.org/grpc"
 	"google.golang.org/grpc/metadata"
 
@@ -25,6 +27,7 @@ import (
 	"github.com/lindb/lindb/config"
 	"github.com/lindb/lindb/constants"
 	"github.com/lindb/lindb/flow"
+	"github.com/lindb/lindb/index"
 	"github.com/lindb/lindb/internal/concurrent"
 	"github.com/lindb/lindb/internal/linmetric"
 	"github.com/lindb/lindb/metrics"
@@ -35,6 +38,7 @@ import (
 	"github.com/lindb/lindb/query"
 	"github.com/lindb/lindb/rpc"
 	"github.com/lindb/lindb/series/metric"
+	"github.com/lindb/lindb/series/tag"
 	"github.com/lindb/lindb/sql"
 	"github.com/lindb/lindb/sql/stmt"
 	"github.com/lindb/lindb/tsdb"
@@ -42,16 +46,18 @@ import (
 
 // Violation classes of the leaf workload.
 const (
-	clsLeafNone        = "C19/leaf/no-response"
-	clsLeafTwo         = "C19/leaf/more-than-one-response"
-	clsLeafLostNotLast = "C19/leaf/shard-failure-answered-as-success/failed-stage-not-last"
-	clsLeafLostLast    = "C19/leaf/shard-failure-answered-as-success/failed-stage-last"
-	clsLeafLostUnknown = "C19/leaf/shard-failure-answered-as-success/completion-order-unknown"
-	clsLeafLostRecover = "C19/leaf/shard-failure-answered-as-success/panic-on-request-goroutine"
-	clsLeafLostOther   = "C19/leaf/shard-failure-answered-as-success/other"
-	clsLeafSpurious    = "C19/leaf/error-response-without-failure"
-	clsLeafBadReq      = "C19/leaf/rejected-request-answered-as-success"
-	clsLeafIncomplete  = "C19/leaf/response-not-marked-completed"
+	clsLeafNone         = "C19/leaf/no-response"
+	clsLeafDeadlock     = "C19/leaf/no-response/panic-in-stage-complete-deadlocks-state-machine"
+	clsLeafTwo          = "C19/leaf/more-than-one-response"
+	clsLeafLostNotLast  = "C19/leaf/shard-failure-answered-as-success/failed-stage-not-last"
+	clsLeafLostLast     = "C19/leaf/shard-failure-answered-as-success/failed-stage-last"
+	clsLeafLostUnknown  = "C19/leaf/shard-failure-answered-as-success/completion-order-unknown"
+	clsLeafLostRecover  = "C19/leaf/shard-failure-answered-as-success/panic-on-request-goroutine"
+	clsLeafLostOther    = "C19/leaf/shard-failure-answered-as-success/other"
+	clsLeafLostReqLevel = "C19/leaf/request-level-failure-answered-as-success"
+	clsLeafSpurious     = "C19/leaf/error-response-without-failure"
+	clsLeafBadReq       = "C19/leaf/rejected-request-answered-as-success"
+	clsLeafIncomplete   = "C19/leaf/response-not-marked-completed"
 )
 
 const (
@@ -67,15 +73,23 @@ var leafSeries = []int{3, 5, 40, 8} // series per shard; shard 2 exceeds leafLim
 // fault/gate control of one request, found by the wrappers through the query's time range
 
 type leafCase struct {
-	ID      int            `json:"id"`
-	Kind    string         `json:"kind"`  // data | metadata | bad-plan | not-leaf | no-db | bad-payload | no-metric
-	Query   string         `json:"query"` // plain | cond | groupby
-	Shards  []int          `json:"shards"`
-	Fault   map[int]string `json:"fault"` // per shard: filter-err | filter-panic | load-panic | families-panic | filter-notfound
-	Release []int          `json:"release"`
-	Paced   bool           `json:"paced"` // wait for the released shard's work before opening the next gate
-	Gated   bool           `json:"gated"`
-	Explain bool           `json:"explain"`
+	ID     int            `json:"id"`
+	Kind   string         `json:"kind"`  // data | metadata | bad-plan | not-leaf | no-db | bad-payload | no-metric
+	Query  string         `json:"query"` // plain | cond | groupby
+	Shards []int          `json:"shards"`
+	Fault  map[int]string `json:"fault"` // per shard: filter-err | filter-panic | load-panic | families-panic | filter-notfound
+	// MetaFault: request level faults at the metadata database: point -> outcome (err | panic | notfound); points:
+	// get-metric-id, get-schema, find-tag-values (root stage), collect-tag-values (grouping collect after the scans).
+	MetaFault map[string]string `json:"meta_fault,omitempty"`
+	// IndexFault: per shard "point:outcome" at the shard's index database; points: series-for-metric,
+	// series-by-tag-values, grouping-context.
+	IndexFault map[int]string `json:"index_fault,omitempty"`
+	// Short: the request goes through the handler with the short query timeout and is watched until its context is done.
+	Short   bool  `json:"short_deadline,omitempty"`
+	Release []int `json:"release"`
+	Paced   bool  `json:"paced"` // wait for the released shard's work before opening the next gate
+	Gated   bool  `json:"gated"`
+	Explain bool  `json:"explain"`
 
 	mu      sync.Mutex
 	parked  map[int]chan struct{}
@@ -85,6 +99,50 @@ type leafCase struct {
 	events  []string
 	open    bool // gates disabled (after the response / free mode)
 	env     *leafEnv
+	taskCtx context.Context // the request's task context, seen by the wrappers
+	onReqG  bool            // a fault panicked on the goroutine that runs leafTaskProcessor.Process
+	ignored int             // not-found outcomes at plan nodes that ignore them
+}
+
+const (
+	leafReceiverShort = "1.1.1.2:9000"
+	leafShortTimeout  = 500 * time.Millisecond
+)
+
+// inject realises the outcome planned for a fault point; key -1 is the request level. isFailure tells whether the
+// leaf path has to treat the outcome as a failure of the request (not-found is ignored by the shard scan plan nodes).
+func (lc *leafCase) inject(key int, point, outcome string, isFailure bool) error {
+	if outcome == "" {
+		return nil
+	}
+	name := point + ":" + outcome
+	lc.mu.Lock()
+	if isFailure {
+		lc.fired[key] = name
+	} else {
+		lc.ignored++
+	}
+	lc.events = append(lc.events, fmt.Sprintf("fault %s fired (key %d, failure=%v)", name, key, isFailure))
+	lc.mu.Unlock()
+	switch outcome {
+	case "panic":
+		panic(fmt.Sprintf("c19-leaf-fault %s key %d", name, key))
+	case "notfound":
+		return fmt.Errorf("c19-leaf-fault %s key %d %w", name, key, constants.ErrNotFound)
+	default:
+		return fmt.Errorf("c19-leaf-fault %s key %d", name, key)
+	}
+}
+
+func (lc *leafCase) sawCtx(ctx context.Context) {
+	if ctx == nil {
+		return
+	}
+	lc.mu.Lock()
+	if lc.taskCtx == nil {
+		lc.taskCtx = ctx
+	}
+	lc.mu.Unlock()
 }
 
 func (lc *leafCase) event(format string, args ...interface{}) {
@@ -143,13 +201,17 @@ type leafEnv struct {
 
 	mu    sync.Mutex
 	cases map[int64]*leafCase // by TimeRange.End of the request's query
+	byID  map[int]*leafCase   // by the alias of the database name the request asks for (<db>#<case id>)
+	short *recStream          // stream of the handler with the short query timeout
 
 	// exact accounting of the four pools a request runs on: tasks handed to them (counted by a delegating wrapper)
 	// against the pools' own consumed/panic/rejected counters
-	pools  [4]*countPool
-	sent   atomic.Int64 // requests put on the stream
-	parked atomic.Int64 // pool workers waiting at a gate
-	execP  *tsdb.ExecutorPool
+	pools     [4]*countPool
+	sent      atomic.Int64 // requests put on the stream
+	dead      atomic.Int64 // pool workers proven to wait for ever for a state machine mutex (see scanDead)
+	deadCases map[string]string
+	parked    atomic.Int64 // pool workers waiting at a gate
+	execP     *tsdb.ExecutorPool
 }
 
 // countPool delegates to the real pool and counts the tasks handed to it.
@@ -201,16 +263,112 @@ func (e *leafEnv) settled() bool {
 	for i := range a.h {
 		live += a.h[i] - a.f[i]
 	}
-	return live == a.parked
+	return live == a.parked+e.dead.Load()
+}
+
+var (
+	reGoroutineHdr = regexp.MustCompile(`^goroutine (\d+) [^\[]*\[([^\]]*)\]`)
+	reSMFrame      = regexp.MustCompile(`query\.\(\*pipelineStateMachine\)\.(completeStage|executeStage)\((0x[0-9a-f]+)`)
+	reInjectFrame  = regexp.MustCompile(`main\.\(\*leafCase\)\.inject\((0x[0-9a-f]+)`)
+)
+
+// scanDead looks at the stacks of all goroutines for pool workers that can never finish their task: a goroutine that
+// waits for the mutex of a pipeline state machine while a lower frame of the SAME goroutine is inside that state
+// machine's completeStage (a panic is being handled on top of the frame that holds the lock) waits for itself; every
+// other goroutine waiting for that state machine's mutex waits for it too.  This is a proof from observed goroutine
+// states, not a timeout.  It returns the number of such pool workers and records the requests they belong to.
+func (e *leafEnv) scanDead() {
+	buf := make([]byte, 8<<20)
+	n := runtime.Stack(buf, true)
+	blocks := strings.Split(string(buf[:n]), "\n\n")
+	type g struct {
+		text     string
+		top      string   // receiver of the top-most state machine frame
+		lower    []string // receivers of the other state machine frames
+		inPool   bool
+		caseAddr string
+	}
+	var waiting []g
+	deadSM := map[string]bool{}
+	for _, b := range blocks {
+		m := reGoroutineHdr.FindStringSubmatch(b)
+		if m == nil || !strings.Contains(m[2], "Mutex.Lock") && !strings.Contains(m[2], "semacquire") {
+			continue
+		}
+		frames := reSMFrame.FindAllStringSubmatch(b, -1)
+		if len(frames) == 0 {
+			continue
+		}
+		// the mutex wait must be the state machine's own (first frames: sync.(*Mutex).Lock called by completeStage/executeStage)
+		head := b
+		if i := strings.Index(b, "pipelineStateMachine)"); i >= 0 {
+			head = b[:i]
+		}
+		if !strings.Contains(head, "sync.(*Mutex).Lock") {
+			continue
+		}
+		x := g{text: b, top: frames[0][2], inPool: strings.Contains(b, "workerPool).execTask")}
+		for _, f := range frames[1:] {
+			x.lower = append(x.lower, f[2])
+			if f[2] == x.top && f[1] == "completeStage" {
+				deadSM[x.top] = true
+			}
+		}
+		if c := reInjectFrame.FindStringSubmatch(b); c != nil {
+			x.caseAddr = c[1]
+		}
+		waiting = append(waiting, x)
+	}
+	dead := int64(0)
+	e.mu.Lock()
+	for _, x := range waiting {
+		if !deadSM[x.top] {
+			continue
+		}
+		// a task that panicked is already counted as finished by its pool (TasksPanic is incremented before the panic
+		// handler runs): only workers that wait outside a panic handler still hold a live task
+		if x.inPool && !strings.Contains(x.text, "workerPool).execTask.func1") {
+			dead++
+		}
+		if x.caseAddr != "" {
+			if _, ok := e.deadCases[x.caseAddr]; !ok {
+				txt := x.text
+				if len(txt) > 6000 {
+					txt = txt[:6000]
+				}
+				e.deadCases[x.caseAddr] = txt
+			}
+		}
+	}
+	e.mu.Unlock()
+	e.dead.Store(dead)
+}
+
+// deadProof returns the stack of the goroutine that deadlocked on this request's state machine, if one was found.
+func (e *leafEnv) deadProof(lc *leafCase) string {
+	e.mu.Lock()
+	defer e.mu.Unlock()
+	return e.deadCases[fmt.Sprintf("%p", lc)]
 }
 
 func (e *leafEnv) waitSettled(deadline time.Time) bool {
+	start := time.Now()
+	scans := 0
 	for n := 0; ; n++ {
 		if e.settled() {
 			return true
 		}
 		if time.Now().After(deadline) {
 			return false
+		}
+		// not settling: look for pool workers that are provably stuck for ever (rarely, with growing distance)
+		if el := time.Since(start); el > time.Duration(150<<scans)*time.Millisecond && scans < 7 {
+			scans++
+			e.scanDead()
+			if os.Getenv("VERIF_C19_DEBUG") != "" {
+				a := e.snap()
+				fmt.Fprintf(os.Stderr, "waitSettled: scan %d snap=%+v dead=%d\n", scans, a, e.dead.Load())
+			}
 		}
 		if n < 50 {
 			runtime.Gosched()
@@ -234,16 +392,116 @@ type wEngine struct {
 }
 
 func (w *wEngine) GetDatabase(name string) (tsdb.Database, bool) {
+	// every request asks for its own alias of the database, so the wrappers know their case from the first call on
+	var lc *leafCase
+	if i := strings.IndexByte(name, '#'); i >= 0 {
+		id, _ := strconv.Atoi(name[i+1:])
+		name = name[:i]
+		w.env.mu.Lock()
+		lc = w.env.byID[id]
+		w.env.mu.Unlock()
+	}
 	db, ok := w.Engine.GetDatabase(name)
 	if !ok {
 		return nil, false
 	}
-	return &wDatabase{Database: db, env: w.env}, true
+	return &wDatabase{Database: db, env: w.env, lc: lc}, true
 }
 
 type wDatabase struct {
 	tsdb.Database
 	env *leafEnv
+	lc  *leafCase
+}
+
+func (w *wDatabase) MetaDB() index.MetricMetaDatabase {
+	if w.lc == nil {
+		return w.Database.MetaDB()
+	}
+	return &wMetaDB{MetricMetaDatabase: w.Database.MetaDB(), lc: w.lc}
+}
+
+// wMetaDB injects faults into the metadata database calls of the leaf path.
+type wMetaDB struct {
+	index.MetricMetaDatabase
+	lc *leafCase
+}
+
+func (w *wMetaDB) root(point string) error {
+	out := w.lc.MetaFault[point]
+	if out == "panic" {
+		w.lc.mu.Lock()
+		w.lc.onReqG = true
+		w.lc.mu.Unlock()
+	}
+	return w.lc.inject(-1, point, out, true)
+}
+
+func (w *wMetaDB) GetMetricID(namespace, metricName string) (metric.ID, error) {
+	if err := w.root("get-metric-id"); err != nil {
+		return 0, err
+	}
+	return w.MetricMetaDatabase.GetMetricID(namespace, metricName)
+}
+
+func (w *wMetaDB) GetSchema(metricID metric.ID) (*metric.Schema, error) {
+	if err := w.root("get-schema"); err != nil {
+		return nil, err
+	}
+	return w.MetricMetaDatabase.GetSchema(metricID)
+}
+
+func (w *wMetaDB) FindTagValueDsByExpr(tagKeyID tag.KeyID, expr stmt.TagFilter) (*roaring.Bitmap, error) {
+	if err := w.root("find-tag-values"); err != nil {
+		return nil, err
+	}
+	return w.MetricMetaDatabase.FindTagValueDsByExpr(tagKeyID, expr)
+}
+
+func (w *wMetaDB) CollectTagValues(tagKeyID tag.KeyID, tagValueIDs *roaring.Bitmap, tagValues map[uint32]string) error {
+	w.lc.event("CollectTagValues(tag key %d, %d tag value ids)", tagKeyID, tagValueIDs.GetCardinality())
+	if err := w.lc.inject(-1, "collect-tag-values", w.lc.MetaFault["collect-tag-values"], true); err != nil {
+		return err
+	}
+	return w.MetricMetaDatabase.CollectTagValues(tagKeyID, tagValueIDs, tagValues)
+}
+
+// wIndexDB injects faults into the index database calls of one shard's scan stage.
+type wIndexDB struct {
+	index.MetricIndexDatabase
+	lc    *leafCase
+	shard int
+}
+
+func (w *wIndexDB) fault(point string) error {
+	f := w.lc.IndexFault[w.shard]
+	if !strings.HasPrefix(f, point+":") {
+		return nil
+	}
+	out := strings.TrimPrefix(f, point+":")
+	return w.lc.inject(w.shard, point, out, out != "notfound")
+}
+
+func (w *wIndexDB) GetSeriesIDsForMetric(metricID metric.ID) (*roaring.Bitmap, error) {
+	if err := w.fault("series-for-metric"); err != nil {
+		return nil, err
+	}
+	return w.MetricIndexDatabase.GetSeriesIDsForMetric(metricID)
+}
+
+func (w *wIndexDB) GetSeriesIDsByTagValueIDs(tagKeyID tag.KeyID, tagValueIDs *roaring.Bitmap) (*roaring.Bitmap, error) {
+	if err := w.fault("series-by-tag-values"); err != nil {
+		return nil, err
+	}
+	return w.MetricIndexDatabase.GetSeriesIDsByTagValueIDs(tagKeyID, tagValueIDs)
+}
+
+func (w *wIndexDB) GetGroupingContext(ctx *flow.ShardExecuteContext) error {
+	w.lc.sawCtx(ctx.StorageExecuteCtx.TaskCtx.Ctx)
+	if err := w.fault("grouping-context"); err != nil {
+		return err
+	}
+	return w.MetricIndexDatabase.GetGroupingContext(ctx)
 }
 
 func (w *wDatabase) ExecutorPool() *tsdb.ExecutorPool { return w.env.execP }
@@ -253,23 +511,37 @@ func (w *wDatabase) GetShard(id models.ShardID) (tsdb.Shard, bool) {
 	if !ok {
 		return nil, false
 	}
-	return &wShard{Shard: s, env: w.env}, true
+	return &wShard{Shard: s, env: w.env, lc: w.lc}, true
 }
 
 type wShard struct {
 	tsdb.Shard
 	env *leafEnv
+	lc  *leafCase
+}
+
+func (w *wShard) IndexDB() index.MetricIndexDatabase {
+	if w.lc == nil {
+		return w.Shard.IndexDB()
+	}
+	return &wIndexDB{MetricIndexDatabase: w.Shard.IndexDB(), lc: w.lc, shard: int(w.ShardID())}
 }
 
 func (w *wShard) GetDataFamilies(intervalType timeutil.IntervalType, timeRange timeutil.TimeRange) []tsdb.DataFamily {
 	fams := w.Shard.GetDataFamilies(intervalType, timeRange)
-	lc := w.env.caseOf(timeRange.End)
+	lc := w.lc
+	if lc == nil {
+		lc = w.env.caseOf(timeRange.End)
+	}
 	if lc == nil {
 		return fams
 	}
 	id := int(w.ShardID())
 	if lc.Fault[id] == "families-panic" {
 		lc.fire(id, "families-panic")
+		lc.mu.Lock()
+		lc.onReqG = true
+		lc.mu.Unlock()
 		panic(fmt.Sprintf("c19-leaf-fault families-panic shard %d", id))
 	}
 	out := make([]tsdb.DataFamily, len(fams))
@@ -286,6 +558,7 @@ type wFamily struct {
 }
 
 func (w *wFamily) Filter(ctx *flow.ShardExecuteContext) ([]flow.FilterResultSet, error) {
+	w.lc.sawCtx(ctx.StorageExecuteCtx.TaskCtx.Ctx)
 	w.lc.gate(w.shard)
 	switch w.lc.Fault[w.shard] {
 	case "filter-err":
@@ -338,15 +611,19 @@ type recResp struct {
 
 type recStream struct {
 	grpc.ServerStream
-	ctx   context.Context
-	reqs  chan *protoCommonV1.TaskRequest
-	mu    sync.Mutex
-	resps map[string][]recResp
+	parent *recStream // responses are recorded in one place
+	ctx    context.Context
+	reqs   chan *protoCommonV1.TaskRequest
+	mu     sync.Mutex
+	resps  map[string][]recResp
 }
 
 func (s *recStream) Context() context.Context { return s.ctx }
 
 func (s *recStream) Send(r *protoCommonV1.TaskResponse) error {
+	if s.parent != nil {
+		return s.parent.Send(r)
+	}
 	s.mu.Lock()
 	s.resps[r.RequestID] = append(s.resps[r.RequestID], recResp{ReqID: r.RequestID, ErrMsg: r.ErrMsg, Completed: r.Completed, Payload: len(r.Payload), Stats: r.Stats})
 	s.mu.Unlock()
@@ -388,7 +665,7 @@ func newLeafEnv(dir string) (*leafEnv, error) {
 	}
 	db, _ := engine.GetDatabase(leafDB)
 	limits := models.NewDefaultLimits()
-	env := &leafEnv{engine: engine, db: db, cases: map[int64]*leafCase{}}
+	env := &leafEnv{engine: engine, db: db, cases: map[int64]*leafCase{}, byID: map[int]*leafCase{}, deadCases: map[string]string{}}
 	now := time.Now().UnixMilli()
 	env.t0 = now - now%3600_000 // start of the current hour: one data family
 	converter := metric.NewProtoConverter(limits)
@@ -478,6 +755,17 @@ func newLeafEnv(dir string) (*leafEnv, error) {
 		resps: map[string][]recResp{},
 	}
 	go func() { _ = env.handler.Handle(env.stream) }()
+	// a second handler over the same processor and pools whose requests have a short deadline: used for requests that
+	// must be answered with an error anyway, to see what the leaf still sends when the deadline passes
+	qshort := qcfg
+	qshort.Timeout = ltoml.Duration(leafShortTimeout)
+	env.short = &recStream{
+		parent: env.stream,
+		ctx:    metadata.NewIncomingContext(context.Background(), metadata.Pairs(constants.RPCMetaKeyLogicNode, leafReceiverShort)),
+		reqs:   make(chan *protoCommonV1.TaskRequest),
+	}
+	shortHandler := query.NewTaskHandler(qshort, env.fct, processor, taskPool)
+	go func() { _ = shortHandler.Handle(env.short) }()
 	return env, nil
 }
 
@@ -486,7 +774,7 @@ func newLeafEnv(dir string) (*leafEnv, error) {
 
 func leafCaseOf(seed int64, idx int, free bool) *leafCase {
 	r := newRandSrc(seed*31337 + int64(idx)*2654435761 + 99)
-	lc := &leafCase{ID: idx, Fault: map[int]string{}, Gated: !free}
+	lc := &leafCase{ID: idx, Fault: map[int]string{}, MetaFault: map[string]string{}, IndexFault: map[int]string{}, Gated: !free}
 	switch x := r.intn(100); {
 	case x < 76:
 		lc.Kind = "data"
@@ -503,7 +791,7 @@ func leafCaseOf(seed int64, idx int, free bool) *leafCase {
 	default:
 		lc.Kind = "bad-payload"
 	}
-	lc.Query = []string{"plain", "plain", "cond", "groupby"}[r.intn(4)]
+	lc.Query = []string{"plain", "cond", "groupby", "groupby"}[r.intn(4)]
 	lc.Explain = free || r.intn(4) == 0 // ungated requests may be gone before the harness can look at their pipeline: take the stats from the response
 	// shards: at least two
 	perm := []int{0, 1, 2, 3}
@@ -533,6 +821,35 @@ func leafCaseOf(seed int64, idx int, free bool) *leafCase {
 		}
 		lc.Fault[s] = kinds[r.intn(len(kinds))]
 	}
+	// faults at the metadata / index database calls of the leaf path
+	outcomes := []string{"err", "panic", "notfound"}
+	if lc.Kind == "data" {
+		switch x := r.intn(100); {
+		case x < 8:
+			pts := []string{"get-metric-id", "get-schema"}
+			if lc.Query == "cond" {
+				pts = append(pts, "find-tag-values", "find-tag-values")
+			}
+			lc.MetaFault[pts[r.intn(len(pts))]] = outcomes[r.intn(3)]
+		case x < 30:
+			s := lc.Shards[r.intn(len(lc.Shards))]
+			pt := "series-for-metric"
+			switch lc.Query {
+			case "cond":
+				pt = "series-by-tag-values"
+			case "groupby":
+				pt = []string{"series-for-metric", "grouping-context", "grouping-context"}[r.intn(3)]
+			}
+			if s != 2 && lc.Fault[s] == "" {
+				lc.IndexFault[s] = pt + ":" + outcomes[r.intn(3)]
+			}
+		}
+		if lc.Query == "groupby" && r.intn(5) < 2 {
+			// the collection of the grouping tag values runs after the last scan/grouping stage, outside any stage
+			lc.MetaFault["collect-tag-values"] = []string{"err", "err", "notfound", "panic"}[r.intn(4)]
+			lc.Short = true
+		}
+	}
 	// release order
 	lc.Release = append([]int(nil), lc.Shards...)
 	for i := len(lc.Release) - 1; i > 0; i-- {
@@ -558,15 +875,36 @@ func (lc *leafCase) failing(s int) bool {
 	if f != "" && f != "filter-notfound" {
 		return true
 	}
+	if xf := lc.IndexFault[s]; xf != "" && !strings.HasSuffix(xf, ":notfound") {
+		return true
+	}
 	return leafSeries[s]+1 > leafLimit
+}
+
+// risky: the grouping tag value collection is set up to panic and a shard's pooled stage is set up to panic too.
+func (lc *leafCase) risky() bool {
+	if lc.Kind != "data" || lc.MetaFault["collect-tag-values"] != "panic" {
+		return false
+	}
+	for _, f := range lc.Fault {
+		if f == "filter-panic" || f == "load-panic" {
+			return true
+		}
+	}
+	for _, f := range lc.IndexFault {
+		if strings.HasSuffix(f, ":panic") {
+			return true
+		}
+	}
+	return false
 }
 
 func (lc *leafCase) key() string {
 	var fs []string
 	for _, s := range lc.Shards {
-		fs = append(fs, fmt.Sprintf("%d:%s", s, lc.Fault[s]))
+		fs = append(fs, fmt.Sprintf("%d:%s:%s", s, lc.Fault[s], lc.IndexFault[s]))
 	}
-	return hashKey("leaf", lc.Kind, lc.Query, strings.Join(fs, ","), fmt.Sprint(lc.Release), fmt.Sprint(lc.Gated, lc.Paced))
+	return hashKey("leaf", lc.Kind, lc.Query, strings.Join(fs, ","), fmt.Sprint(lc.MetaFault), fmt.Sprint(lc.Release), fmt.Sprint(lc.Gated, lc.Paced))
 }
 
 // leafOutcome is what the leaf oracle judges.
@@ -582,8 +920,12 @@ type leafOutcome struct {
 	// Released: the shards whose gate the driver opened while they were parked, in order.  Ordered: the pools had
 	// settled (every other task of the request consumed) before each of these gates was opened, so the stages of a
 	// shard released later completed - including the state machine's count-down - after those of the earlier ones.
-	Released []int `json:"released_in_order,omitempty"`
-	Ordered  bool  `json:"order_is_logical"`
+	Released []int  `json:"released_in_order,omitempty"`
+	Ordered  bool   `json:"order_is_logical"`
+	Deadlock string `json:"deadlocked_goroutine,omitempty"` // stack of a pool worker waiting for ever for this request's state machine
+	CtxDone  string `json:"task_context_done,omitempty"`    // Err() of the request's task context at the end
+	OnReqG   bool   `json:"panic_on_request_goroutine,omitempty"`
+	Ignored  int    `json:"not_found_ignored,omitempty"`
 }
 
 func (e *leafEnv) run(lc *leafCase) *leafOutcome {
@@ -607,7 +949,19 @@ func (e *leafEnv) run(lc *leafCase) *leafOutcome {
 	for i, s := range lc.Shards {
 		shardIDs[i] = models.ShardID(s)
 	}
-	plan := &models.PhysicalPlan{Database: leafDB, Targets: []*models.Target{{Indicator: leafNode, ShardIDs: shardIDs}}, Receivers: []string{leafReceiver}}
+	receiver, stream := leafReceiver, e.stream
+	if lc.Short {
+		receiver, stream = leafReceiverShort, e.short
+	}
+	e.mu.Lock()
+	e.byID[lc.ID] = lc
+	e.mu.Unlock()
+	defer func() {
+		e.mu.Lock()
+		delete(e.byID, lc.ID)
+		e.mu.Unlock()
+	}()
+	plan := &models.PhysicalPlan{Database: fmt.Sprintf("%s#%d", leafDB, lc.ID), Targets: []*models.Target{{Indicator: leafNode, ShardIDs: shardIDs}}, Receivers: []string{receiver}}
 	req := &protoCommonV1.TaskRequest{RequestID: out.ReqID, RequestType: protoCommonV1.RequestType_Data}
 	qsql := "select f from cpu"
 	switch lc.Query {
@@ -667,7 +1021,7 @@ func (e *leafEnv) run(lc *leafCase) *leafOutcome {
 
 	deadline := time.Now().Add(30 * time.Second)
 	e.sent.Add(1)
-	e.stream.reqs <- req
+	stream.reqs <- req
 
 	// settled = the request was handed to the task pool and every task on the four pools has finished or waits at a gate
 	if !e.waitSettled(deadline) {
@@ -704,6 +1058,25 @@ func (e *leafEnv) run(lc *leafCase) *leafOutcome {
 	if out.Watchdog == "" && !e.waitSettled(deadline) {
 		out.Watchdog = "pools did not settle after all gates were opened"
 	}
+	// A request with the short deadline is watched until its task context is done (released by the guarded
+	// SendResponse, or the deadline passed) and the pools have settled after that: only then nothing of the request
+	// can still send anything.
+	lc.mu.Lock()
+	taskCtx := lc.taskCtx
+	lc.mu.Unlock()
+	if lc.Short && taskCtx != nil && out.Watchdog == "" {
+		select {
+		case <-taskCtx.Done():
+			out.CtxDone = taskCtx.Err().Error()
+		case <-time.After(time.Until(deadline)):
+			out.Watchdog = "the request's task context is neither released nor past its deadline"
+		}
+		if out.Watchdog == "" && !e.waitSettled(deadline) {
+			out.Watchdog = "pools did not settle after the request's context was done"
+		}
+	} else if taskCtx != nil && taskCtx.Err() != nil {
+		out.CtxDone = taskCtx.Err().Error()
+	}
 	// the pool counts a panicking task as finished just before it calls the task's panic handler (which completes
 	// the stage and may send the response): only that window is covered by a grace period
 	lc.mu.Lock()
@@ -715,7 +1088,11 @@ func (e *leafEnv) run(lc *leafCase) *leafOutcome {
 	}
 	lc.mu.Unlock()
 	// (no such window exists without a panic: a task is counted as consumed only after its function returned)
-	if n := len(e.stream.responses(out.ReqID)); panicFired && n == 0 {
+	if panicFired && len(e.stream.responses(out.ReqID)) == 0 {
+		e.scanDead() // the pools may have settled without a scan: a panicking task counts as consumed
+	}
+	out.Deadlock = e.deadProof(lc)
+	if n := len(e.stream.responses(out.ReqID)); panicFired && n == 0 && out.Deadlock == "" {
 		for k := 0; k < 5000 && len(e.stream.responses(out.ReqID)) == 0; k++ {
 			time.Sleep(time.Millisecond)
 		}
@@ -743,6 +1120,8 @@ func (e *leafEnv) run(lc *leafCase) *leafOutcome {
 	for k, v := range lc.fired {
 		out.Fired[k] = v
 	}
+	out.OnReqG = lc.onReqG
+	out.Ignored = lc.ignored
 	lc.mu.Unlock()
 	return out
 }
@@ -760,6 +1139,13 @@ func judgeLeaf(out *leafOutcome) (vs []viol, facts map[string]int) {
 	facts["leaf_requests_"+lc.Kind] = 1
 	n := len(out.Responses)
 	facts["leaf_responses"] = n
+	if n == 0 && out.Deadlock != "" {
+		add(clsLeafDeadlock, "request %s got no response: %s panicked inside Stage.Complete(), which pipelineStateMachine.completeStage calls while holding its mutex; "+
+			"the pool's panic handler called completeStage again on the same goroutine, which now waits for ever for the mutex its own lower frame holds "+
+			"(goroutine stack in the witness)", out.ReqID, out.Fired[-1])
+		facts["leaf_state_machine_deadlocks"] = 1
+		return vs, facts
+	}
 	if n == 0 {
 		add(clsLeafNone+"/"+lc.Kind, "request %s (%s) got no response although every gate was opened and every task handed to the four pools was consumed", out.ReqID, lc.Kind)
 		return vs, facts
@@ -796,6 +1182,24 @@ func judgeLeaf(out *leafOutcome) (vs []viol, facts map[string]int) {
 			facts["leaf_shard_not_found_ignored"]++
 		}
 	}
+	// request level: a metadata database call failed (root stage lookups, or the grouping tag value collection that
+	// runs after the last scan/grouping stage outside any stage)
+	reqLevel := ""
+	if f, ok := out.Fired[-1]; ok {
+		reqLevel = f
+		failed = append(failed, "request level ("+f+")")
+		facts["leaf_fault_fired_"+f]++
+	}
+	facts["leaf_not_found_ignored_at_index_calls"] = out.Ignored
+	if lc.Query == "groupby" {
+		facts["leaf_requests_group_by"] = 1
+	}
+	if lc.Short {
+		facts["leaf_requests_watched_until_context_done"] = 1
+		if out.CtxDone != "" {
+			facts["leaf_request_context_done_"+strings.ReplaceAll(out.CtxDone, " ", "_")] = 1
+		}
+	}
 	switch {
 	case len(failed) > 0:
 		facts["leaf_requests_with_failing_shard"] = 1
@@ -810,7 +1214,7 @@ func judgeLeaf(out *leafOutcome) (vs []viol, facts map[string]int) {
 				failedSet[s] = true
 			}
 		}
-		orderKnown := out.Ordered && len(out.Released) == len(lc.Shards) && !hasFired(out, "families-panic")
+		orderKnown := out.Ordered && len(out.Released) == len(lc.Shards) && !out.OnReqG && reqLevel == ""
 		failedLast := false
 		if orderKnown {
 			failedLast = failedSet[out.Released[len(out.Released)-1]]
@@ -825,8 +1229,10 @@ func judgeLeaf(out *leafOutcome) (vs []viol, facts map[string]int) {
 		if resp.ErrMsg == "" {
 			cls := clsLeafLostOther
 			switch {
-			case hasFired(out, "families-panic"):
+			case out.OnReqG:
 				cls = clsLeafLostRecover
+			case reqLevel != "" && len(failed) == 1:
+				cls = clsLeafLostReqLevel + "/" + strings.SplitN(reqLevel, ":", 2)[0]
 			case haveStats && !toldStateMachine:
 				cls = clsLeafLostOther // the state machine never heard of a failure: not the "forgotten because not last" defect
 			case !orderKnown:
@@ -843,9 +1249,18 @@ func judgeLeaf(out *leafOutcome) (vs []viol, facts map[string]int) {
 		}
 	default:
 		facts["leaf_requests_all_shards_ok"] = 1
-		if resp.ErrMsg != "" {
+		deadlineErr := lc.Short && out.CtxDone == context.DeadlineExceeded.Error() && strings.Contains(resp.ErrMsg, "context deadline exceeded")
+		anyIgnored := out.Ignored > 0
+		for _, f := range lc.Fault {
+			if f == "filter-notfound" {
+				anyIgnored = true
+			}
+		}
+		if deadlineErr {
+			facts["leaf_deadline_responses"] = 1 // the short deadline passed before the planned fault could fire
+		} else if resp.ErrMsg != "" {
 			add(clsLeafSpurious, "request %s: no shard failed, but the response carries error %q", out.ReqID, resp.ErrMsg)
-		} else if resp.Payload == 0 {
+		} else if resp.Payload == 0 && !anyIgnored {
 			add(clsLeafSpurious+"/empty-payload", "request %s: no shard failed, but the response has no payload", out.ReqID)
 		} else {
 			facts["leaf_success_responses"] = 1
@@ -915,6 +1330,9 @@ func childLeaf(args []string) {
 	mod, _ := strconv.Atoi(args[3])
 	rem, _ := strconv.Atoi(args[4])
 	race := args[5] == "1"
+	// risky: only the requests in which a panic inside Stage.Complete() can meet the pool's panic handler (such a
+	// panic is not recovered by anybody and ends the process); all other children leave these requests out
+	risky := len(args) > 6 && args[6] == "risky"
 	seed := int64(1)
 	if s := os.Getenv("VERIF_SEED"); s != "" {
 		if v, err := strconv.ParseInt(s, 10, 64); err == nil {
@@ -1025,10 +1443,19 @@ func childLeaf(args []string) {
 	if race {
 		core0 = 6
 	}
+	if risky {
+		core0 = 1
+	}
 	parallel(len(list), core0, func(k int) {
 		i := list[k]
 		free := race || i%5 == 4
 		lc := leafCaseOf(seed, i, free)
+		if lc.risky() != risky {
+			return
+		}
+		if risky {
+			defer a.write(resFile) // keep what was judged so far: the next request may end the process
+		}
 		logf(fmt.Sprintf("leaf case %d kind=%s query=%s shards=%v fault=%v release=%v gated=%v", i, lc.Kind, lc.Query, lc.Shards, lc.Fault, lc.Release, lc.Gated))
 		out := env.run(lc)
 		vs, facts := judgeLeaf(out)
